@@ -19,7 +19,7 @@
 (***************************************************************************)
 EXTENDS Integers, Sequences, FiniteSets, TLC, Json
 
-Sites == {"pm", "pmFromDataset", "pmFromFile", "restpath", "varRx", "ctlRx", "relevantStatus", "rx", "validateSchema"}
+Sites == {"pm", "pmFromDataset", "pmFromFile", "restpath", "varRx", "ctlRx", "relevantStatus", "rx", "validateSchema", "validateNid"}
 \* the kind of value a site stores (a type assertion on another kind panics)
 Kind(site) == IF site \in {"pm", "pmFromDataset", "pmFromFile"} THEN "matcher"
               ELSE IF site = "rx" THEN "rxCompiled" ELSE IF site = "validateSchema" THEN "schema" ELSE "regexp"
@@ -49,7 +49,8 @@ Configs ==
      <<Use("validateSchema", "schemas/item.json", "required-sn")>>,
      \* one regex key text on a case-sensitive and on a case-insensitive collection: the artefact differs (the second is folded)
      <<Use("varRx", "^Ab", "^Ab")>>,
-     <<Use("varRx", "^Ab", "^ab")>> >>
+     <<Use("varRx", "^Ab", "^ab")>>,
+     <<Use("validateNid", "abc.def", "abc.def")>> >>
 
 Key(u) == IF KeyDesign = "raw" THEN u.text ELSE <<u.site, u.content>>
 Artefact(u) == [kind |-> Kind(u.site), site |-> u.site, content |-> u.content]
